@@ -365,7 +365,7 @@ Proof.
   assert (Hi : forall j, inst_of b' j = if i =? j then
             inst_of b i <| io_flag := true |> <| io_tok := v_stok (vinfo_of b (lr_val r)) |> <| io_acq_rev := lr_rev r |>
                         <| io_terms ::= Z.succ |> <| io_views ::= cons (v_stok (vinfo_of b (lr_val r)), lr_rev r) |>
-                        <| io_hb_ta := t |> <| io_hb_te := t |> <| io_hb_op := 0 |> else inst_of b j).
+                        <| io_hb_ta := t |> <| io_hb_te := t |> <| io_hb_op := 0 |> <| io_hb_ok := true |> else inst_of b j).
   { intros j. unfold b'. rewrite inst_of_upd. reflexivity. }
   constructor.
   - intros k j tk' C. apply (holds_frame b); [reflexivity|intros; reflexivity|].
